@@ -446,11 +446,15 @@ def run_repeat(case, R):
         R.undecided('C08.repeat', 'fit raised')
         return
 
-    def noise_fn():
-        rr = np.random.default_rng([*case['rs'], 4])
-        dd = {k: (v * (1 + 2.0 ** -50 * rr.uniform(-1, 1, size=v.shape)) if k in ('y', 'e') else v) for k, v in s.data.items()}
-        m3, p3, _ = run(dd, s.init, sal)
-        return dict(post=float(np.abs(p3 - p1).max()), par=diff.compare(fsel(m3), fsel(m1), rtol=tol, atol=tol)[0])
+    def noise_fn(reps=(None,)):
+        nz = dict(post=0.0, par=0.0)
+        for rep in reps:
+            rr = np.random.default_rng([*case['rs'], 4] + ([] if rep is None else [rep]))
+            dd = {k: (v * (1 + 2.0 ** -50 * rr.uniform(-1, 1, size=v.shape)) if k in ('y', 'e') else v) for k, v in s.data.items()}
+            m3, p3, _ = run(dd, s.init, sal)
+            nz['post'] = max(nz['post'], float(np.abs(p3 - p1).max()))
+            nz['par'] = max(nz['par'], diff.compare(fsel(m3), fsel(m1), rtol=tol, atol=tol)[0])
+        return nz
 
     frame_weights = -1 not in [a for a in (s.opts.get('weight_constant_axis', (-1,)) if not isinstance(s.opts.get('weight_constant_axis', (-1,)), int) else (s.opts.get('weight_constant_axis'),))]
 
